@@ -36,6 +36,8 @@ pub struct Scenario<S, SP: StateSpace<StateType = S>> {
     pub keep_seed: bool,
     /// order-sensitive hash of the validity-callback trace (py mirror scenarios)
     pub trace: Option<Arc<std::sync::Mutex<(u64, u64)>>>,
+    /// flattening of a state into the float list the Python side sees (py mirror scenarios)
+    pub flat: Option<Arc<dyn Fn(&S) -> Vec<f64>>>,
 }
 
 fn u01(v: u64) -> f64 {
@@ -316,6 +318,7 @@ pub fn build_table(r: &mut Sm, o: &GenOpts) -> Scenario<TState, TableSpace> {
         timeout_ms: None,
         keep_seed: false,
         trace: None,
+        flat: None,
     }
 }
 
@@ -563,6 +566,7 @@ where
         timeout_ms,
         keep_seed: false,
         trace: None,
+        flat: None,
     }
 }
 
@@ -1018,6 +1022,7 @@ where
         timeout_ms: Some(1000),
         keep_seed: true,
         trace: Some(trace),
+        flat: Some(kit.flat.clone()),
     }
 }
 
